@@ -10,6 +10,7 @@ package main
 //           err <class> w=<n> <hex of anything written>
 
 import (
+	"io"
 	"bytes"
 	"encoding/base64"
 	"encoding/json"
@@ -1463,12 +1464,71 @@ func emitFaultAccept(cw *caseWriter, line []byte, cut int, with bool) {
 	cw.emit(fmt.Sprintf("faultaccept %s %d %s", line, cut, how), true, "faultaccept", "C16", hxs(string(line)), fmt.Sprintf("%d", cut), how, impl)
 }
 
+// emitOverlongAccept: a line of `size` bytes (at and over the 10 MiB limit of what an importer delivers) whose LAST
+// bytes are the complete object `tail`, followed by further lines; the importer is asked again and again after the
+// failure. The bytes of a line that could not be delivered are not lines of the input: nothing of them may be
+// accepted, however the importer is used afterwards.
+//
+//	overlong \t C16 \t <size> \t <hex tail> \t <impl: outcomes of the calls, in order>
+func emitOverlongAccept(cw *caseWriter, size int, tail string, chunked bool) {
+	data := append(bytes.Repeat([]byte("x"), size-len(tail)), []byte(tail)...)
+	data = append(data, []byte("\n{\"next\":1}\n{\"after\":2}\n")...)
+	var outcomes []string
+	pan := guard(func() {
+		var rd io.Reader = bytes.NewReader(data)
+		if chunked {
+			rd = &scriptReader{evs: chunk(data, []int{1 << 16, 4096, 1 << 20})}
+		}
+		imp := jsonline.NewImporter(rd)
+		for i := 0; i < 6; i++ {
+			more := imp.Import()
+			row, err := imp.GetRow()
+			switch {
+			case err == nil && row != nil:
+				js, _ := row.MarshalJSON()
+				outcomes = append(outcomes, fmt.Sprintf("%v:ok:%s", more, hxs(string(js))))
+			case err != nil:
+				outcomes = append(outcomes, fmt.Sprintf("%v:err:%s", more, classify(err)))
+			default:
+				outcomes = append(outcomes, fmt.Sprintf("%v:none", more))
+			}
+			if row2, err2 := imp.ReadOne(); err2 == nil && row2 != nil {
+				js, _ := row2.MarshalJSON()
+				outcomes = append(outcomes, "readone:ok:"+hxs(string(js)))
+			}
+		}
+	})
+	impl := strings.Join(outcomes, ",")
+	if pan != "" {
+		impl = "panic " + strings.ReplaceAll(strings.ReplaceAll(pan, "\t", " "), "\n", " ")
+	}
+	cw.count(fmt.Sprintf("overlong:%d", size))
+	cw.emit(fmt.Sprintf("overlong %d %s chunked=%v", size, tail, chunked), true, "overlong", "C16", fmt.Sprint(size), hxs(tail), impl)
+}
+
 func genC16(cw *caseWriter, seed uint64, tier string) {
+	// lines at and over the limit of what an importer delivers, ending in a complete object
+	for i, size := range []int{10485760, 10485760 + 17, 10485761, 10485759 + 4096, 2 * 10485760} {
+		emitOverlongAccept(cw, size, `{"injected":true}`, i%2 == 1)
+	}
 	// a read failure in the middle of a line: every cut of lines that start with a complete object
 	for _, l := range []string{`{"id":2}{"id":3}`, `{"a":1} x`, `{"a":1}}`, `{}{}`, `{"a":{"b":1}}]`, `{"a":1}`, `{"a":1,"b":2}`, ` {"a":1} `, `{"a":"x"}1`} {
 		for cut := 1; cut <= len(l); cut++ {
 			emitFaultAccept(cw, []byte(l), cut, false)
 			emitFaultAccept(cw, []byte(l), cut, true)
+		}
+	}
+	// a line rejected on a LATE column — by the importer's template or by the exporter's — after columns whose
+	// rendering is longer than the buffers a writer might use (4 KiB, 8 KiB, 64 KiB): no output at all
+	for _, sz := range []int{100, 4000, 4095, 4096, 4097, 5000, 8192, 8200, 65536, 70000} {
+		long := strings.Repeat("x", sz)
+		late := []colDesc{{name: "pad", format: "string", ty: "none"}, {name: "n", format: "auto", ty: "none"}, {name: "d", format: "numeric", ty: "none"}}
+		lateIn := []colDesc{{name: "pad", format: "string", ty: "none"}, {name: "n", format: "auto", ty: "none"}, {name: "d", format: "numeric", ty: "int"}}
+		for _, d := range []string{`"not a number"`, `7`, `[1]`, `{"q":1}`, `"-"`} {
+			line := []byte(`{"pad":"` + long + `","n":[1,2,3],"d":` + d + `}`)
+			emitLine(cw, "C16", nil, late, line, true)
+			emitLine(cw, "C16", lateIn, late, line, true)
+			emitLine(cw, "C16", late, []colDesc{{name: "pad", format: "string", ty: "none"}, {name: "n", format: "auto", ty: "none"}, {name: "d", format: "datetime", ty: "none"}}, line, true)
 		}
 	}
 	r := newRng(seed)
